@@ -181,6 +181,8 @@ impl Pair {
                     "connfail" => Err(ConnectError::Connect { error: anyhow::anyhow!("connection failed") }),
                     "AlreadySyncing" => Err(ConnectError::RemoteAbort(AbortReason::AlreadySyncing)),
                     "NotFound" => Err(ConnectError::RemoteAbort(AbortReason::NotFound)),
+                    // a failed session: either in the message exchange or in the stream-closing handshake
+                    _ if d % 2 == 0 => Err(ConnectError::Close { error: anyhow::anyhow!("close failed") }),
                     _ => Err(ConnectError::Sync { error: anyhow::anyhow!("sync failed") }),
                 };
                 self.nodes[n - 1].actor.verif_connect_finished(ns, other, rec.reason, res).await;
@@ -194,6 +196,7 @@ impl Pair {
                     "ok" => Ok(finished(ns, peer)),
                     "AlreadySyncing" => Err(AcceptError::Abort { peer, namespace: ns, reason: AbortReason::AlreadySyncing }),
                     "NotFound" => Err(AcceptError::Abort { peer, namespace: ns, reason: AbortReason::NotFound }),
+                    _ if d % 2 == 1 => Err(AcceptError::Close { peer, namespace: Some(ns), error: anyhow::anyhow!("close failed") }),
                     _ => Err(AcceptError::Sync { peer, namespace: Some(ns), error: anyhow::anyhow!("sync failed") }),
                 };
                 self.nodes[m - 1].actor.verif_accept_finished(res).await;
